@@ -109,4 +109,6 @@ SHARDS.update({
 SHARDS.update({
     "urwid/widget/pile.py:Pile._get_fixed_rows_sizes": (8, 6),
     "urwid/widget/columns.py:Columns._get_fixed_column_sizes": (8, 6),
+    "urwid/widget/columns.py:Columns.get_column_sizes#sized": (6, 5),
+    "urwid/widget/columns.py:Columns.sizing": (4, 4),
 })
